@@ -68,8 +68,8 @@ NewConn(dir, st, nodeName, t, c) ==
    lastRead |-> t, lastDwr |-> -1,
    sock |-> "open", connecting |-> FALSE, soErr |-> -1,
    netIn |-> <<>>, remoteClosed |-> FALSE, recvErr |-> FALSE,
-   readQ |-> <<>>, rdStop |-> FALSE, rdDone |-> FALSE, rdDl |-> t + 5,
-   writeQ |-> <<>>, wbuf |-> <<>>, wrStop |-> FALSE, wrDone |-> FALSE, wrDl |-> t + 5,
+   readQ |-> <<>>, rdStop |-> FALSE, rdDone |-> FALSE, rdDl |-> t + 5, rdNew |-> TRUE,     \* New: has not reached its first queue.get yet
+   writeQ |-> <<>>, wbuf |-> <<>>, wrStop |-> FALSE, wrDone |-> FALSE, wrDl |-> t + 5, wrNew |-> TRUE,
    hbh |-> 1000 * (c + 1)]
 
 InitState ==
@@ -157,7 +157,8 @@ FlagReady(S, c) ==
 \* Node.remove_peer_connection
 RemovePeerConnection(S, c, reason) ==
   LET p  == PeerOf(S, c)
-      S1 == [S EXCEPT !.connections = Without(@, c), !.peerSockets = Without(@, c)]
+      S0 == [S EXCEPT !.connections = Without(@, c), !.peerSockets = Without(@, c)]
+      S1 == IF "F19cd" \in Pinned THEN S0 ELSE [S0 EXCEPT !.halfReady = @ \ {c}, !.socketPeers = @ \ {c}]
       S2 == IF p = "" THEN S1
             ELSE IF "F13" \in Pinned
             THEN [S1 EXCEPT !.peer[p].conn = 0, !.peer[p].lastDisc = S.now,
@@ -181,10 +182,11 @@ CloseConnectionSocket(S, c, reason) ==
 \* Node._add_peer_connection  (-> state; the connection is "added" or its socket is closed)
 AddPeerConnection(S, c) ==
   LET k == S.conn[c] IN
-  IF S.life = "stopping"
-  THEN Emit([S EXCEPT !.conn[c].sock = "closed"], [ev |-> "sock_close", c |-> c])
-  ELSE IF k.nodeName # "" /\ k.nodeName \in Peers /\ S.peer[k.nodeName].conn # 0
-  THEN Emit([S EXCEPT !.conn[c].sock = "closed"], [ev |-> "sock_close", c |-> c])
+  LET Refuse == LET S1 == Emit([S EXCEPT !.conn[c].sock = "closed"], [ev |-> "sock_close", c |-> c])
+                IN IF "F18a" \in Pinned THEN S1 ELSE ConnClose(S1, c, FALSE)      \* stop the worker threads it has started
+  IN
+  IF S.life = "stopping" THEN Refuse
+  ELSE IF k.nodeName # "" /\ k.nodeName \in Peers /\ S.peer[k.nodeName].conn # 0 THEN Refuse
   ELSE LET S1 == [S EXCEPT !.conn[c].added = TRUE, !.connections = Append(@, c),
                            !.peerSockets = Append(@, c), !.socketPeers = @ \cup {c}]
            p  == PeerOf(S1, c)
@@ -335,7 +337,7 @@ CerMalformed(m) == m.cmd = "CE" /\ m.req /\ m.oh = ""       \* unreachable with 
 
 ReceiveMessage(S, c, m) ==
   LET S0 == Emit(S, [ev |-> "dispatch", c |-> c, m |-> m])
-      S1 == IF HasOriginAttr(m) THEN OwSet(S0, m) ELSE S0
+      S1 == IF HasOriginAttr(m) /\ (m.req \/ "F19b" \in Pinned) THEN OwSet(S0, m) ELSE S0
       err(St, rc) == SendMessage(St, c, Answer(m, rc))
   IN IF m.req /\ NodeCfg.validate /\ MissingAvps(m) THEN err(S1, 5005)
      ELSE IF IsDup(S1, m) THEN err(S1, 5012)
@@ -362,10 +364,13 @@ Gate(S, c, m) ==
 RECURSIVE Dispatch(_, _, _)
 Dispatch(S, c, ms) == IF ms = <<>> THEN S ELSE Dispatch(Gate(S, c, Head(ms)), c, Tail(ms))
 
-RdEnabled(S, c) == S.conn[c].used /\ ~S.conn[c].rdDone /\ (S.conn[c].readQ # <<>> \/ S.now >= S.conn[c].rdDl)
+RdEnabled(S, c) == S.conn[c].used /\ ~S.conn[c].rdDone /\ (S.conn[c].rdNew \/ S.conn[c].readQ # <<>> \/ S.now >= S.conn[c].rdDl)
 RdStep(S, c) ==
   LET k == S.conn[c] IN
-  IF k.readQ = <<>>
+  IF k.rdNew           \* first run of the thread: the loop-top stop test, then queue.get(True, 5)
+  THEN IF k.rdStop THEN [S EXCEPT !.conn[c].rdDone = TRUE, !.conn[c].rdNew = FALSE]
+       ELSE [S EXCEPT !.conn[c].rdNew = FALSE, !.conn[c].rdDl = S.now + 5]
+  ELSE IF k.readQ = <<>>
   THEN IF k.rdStop THEN [S EXCEPT !.conn[c].rdDone = TRUE] ELSE [S EXCEPT !.conn[c].rdDl = S.now + 5]
   ELSE LET S1 == [S EXCEPT !.conn[c].readQ = Tail(@), !.conn[c].lastRead = S.now]
        IN IF Len(Head(k.readQ)) > 0 /\ Head(k.readQ)[1].cmd = "GARBAGE"   \* unparsable header: "only garbage", self.close(); return
@@ -373,10 +378,13 @@ RdStep(S, c) ==
           ELSE LET S2 == Dispatch(S1, c, Head(k.readQ))     \* (a fragment of a message is an empty chunk: nothing to dispatch yet)
                IN IF S2.conn[c].rdStop THEN [S2 EXCEPT !.conn[c].rdDone = TRUE] ELSE [S2 EXCEPT !.conn[c].rdDl = S.now + 5]
 
-WrEnabled(S, c) == S.conn[c].used /\ ~S.conn[c].wrDone /\ (S.conn[c].writeQ # <<>> \/ S.now >= S.conn[c].wrDl)
+WrEnabled(S, c) == S.conn[c].used /\ ~S.conn[c].wrDone /\ (S.conn[c].wrNew \/ S.conn[c].writeQ # <<>> \/ S.now >= S.conn[c].wrDl)
 WrStep(S, c) ==
   LET k == S.conn[c] IN
-  IF k.writeQ = <<>>
+  IF k.wrNew
+  THEN IF k.wrStop THEN [S EXCEPT !.conn[c].wrDone = TRUE, !.conn[c].wrNew = FALSE]
+       ELSE [S EXCEPT !.conn[c].wrNew = FALSE, !.conn[c].wrDl = S.now + 5]
+  ELSE IF k.writeQ = <<>>
   THEN IF k.wrStop THEN [S EXCEPT !.conn[c].wrDone = TRUE] ELSE [S EXCEPT !.conn[c].wrDl = S.now + 5]
   ELSE LET S1 == [S EXCEPT !.conn[c].writeQ = Tail(@), !.conn[c].wbuf = Append(@, Head(k.writeQ)), !.pipe = Append(@, c)]
        IN IF S1.conn[c].wrStop THEN [S1 EXCEPT !.conn[c].wrDone = TRUE] ELSE [S1 EXCEPT !.conn[c].wrDl = S.now + 5]
@@ -513,6 +521,21 @@ IoIter(S) ==
       S5 == IoTimers(S4, S4.connections)
       S6 == Reconnect(S5, PeerOrder)
   IN [S6 EXCEPT !.io = SelectLists(S6)]
+
+\* ------------------------------------------------------------------ retained state (C19)
+RECURSIVE SumIds(_)
+SumIds(pw) == IF pw = <<>> THEN 0 ELSE Cardinality(Head(pw).ids) + SumIds(Tail(pw))
+Retained(S) ==
+  [connections |-> Len(S.connections), peerSockets |-> Len(S.peerSockets), socketPeers |-> Cardinality(S.socketPeers),
+   halfReady |-> Cardinality(S.halfReady), peerWait |-> SumIds(S.peerWait), appWait |-> Cardinality(S.appWait),
+   originWait |-> Cardinality(S.originWait),
+   threads |-> Cardinality({c \in ConnIds : S.conn[c].used /\ ~S.conn[c].rdDone}) + Cardinality({c \in ConnIds : S.conn[c].used /\ ~S.conn[c].wrDone}),
+   openSockets |-> Cardinality({c \in ConnIds : S.conn[c].used /\ S.conn[c].sock = "open"})]
+\* nothing in progress: no connection alive, no request awaiting an answer from an application, no sender waiting
+Idle(S) == /\ S.connections = <<>> /\ S.backlog = <<>> /\ S.pipe = <<>>
+           /\ \A j \in 1..Len(S.held) : S.held[j].answered
+           /\ \A j \in 1..Len(S.snd) : S.snd[j].st = "done"
+           /\ \A c \in ConnIds : S.conn[c].used => (S.conn[c].readQ = <<>> /\ S.conn[c].writeQ = <<>>)
 
 \* ------------------------------------------------------------------ scheduling
 \* priority of the deterministic runtime: readers, then writers (by connection id), then the I/O loop
